@@ -906,5 +906,5 @@ def run(chk, prog):
     chk.floor("R4", n["R4"], 6)
     chk.floor("R5", n["R5"], 8)
     chk.floor("R6", n["R6"], 3)
-    chk.floor("R7", n["R7"], 5)
+    chk.floor("R7", n["R7"], 4)
     chk.floor("R8", n["R8"], 2)
